@@ -216,7 +216,15 @@ mode = sys.argv[1]
 import sqlalchemy as sa
 from sqlalchemy.dialects import sqlite, postgresql
 NAMES = ["lower", "upper", "substr", "strpos", "ltrim", "rtrim", "ceil", "floor", "round",
-         "count", "max", "coalesce", "char_length", "concat", "now"]
+         "count", "max", "coalesce", "char_length", "concat", "now",
+         # a wide net of other names a host application may use
+         "length", "trim", "replace", "abs", "sum", "min", "avg", "substring", "position",
+         "instr", "ceiling", "trunc", "sqrt", "power", "mod", "sign", "date", "time", "year",
+         "month", "day", "hour", "minute", "second", "extract", "strftime", "date_trunc",
+         "nullif", "ifnull", "greatest", "least", "left", "right", "lpad", "rpad", "reverse",
+         "md5", "random", "current_date", "current_timestamp", "localtime", "to_char", "cast_",
+         "array_agg", "string_agg", "json_extract", "contains", "startswith", "endswith",
+         "indexof", "tolower", "toupper", "totalseconds", "any", "all"]
 col = sa.column("c", sa.String)
 num = sa.column("n", sa.Float)
 
@@ -224,10 +232,23 @@ def observe():
     out = {}
     for nm in NAMES:
         f = getattr(sa.func, nm)
-        arg = num if nm in ("ceil", "floor", "round", "max") else col
-        e = f() if nm == "now" else (f(arg, 2) if nm == "substr" else (f(arg, "x") if nm in ("strpos", "coalesce", "concat") else f(arg)))
-        out[nm] = [type(e).__name__, type(e).__module__, str(e.compile(dialect=sqlite.dialect())),
-                   str(e.compile(dialect=postgresql.dialect())), repr(e.type), type(e.type).__name__]
+        arg = num if nm in ("ceil", "floor", "round", "max", "abs", "sqrt", "sign", "trunc",
+                            "ceiling", "sum", "min", "avg") else col
+        try:
+            e = f() if nm in ("now", "random", "current_date", "current_timestamp", "localtime") \
+                else (f(arg, 2) if nm in ("substr", "left", "right", "power", "mod") else
+                      (f(arg, "x") if nm in ("strpos", "coalesce", "concat", "nullif", "ifnull",
+                                             "instr", "position", "replace") else f(arg)))
+        except Exception as ex:
+            out[nm] = ["raises", type(ex).__name__]
+            continue
+        def comp(d):
+            try:
+                return str(e.compile(dialect=d))
+            except Exception as ex:
+                return "raises " + type(ex).__name__
+        out[nm] = [type(e).__name__, type(e).__module__, comp(sqlite.dialect()),
+                   comp(postgresql.dialect()), repr(e.type), type(e.type).__name__]
     return out
 
 res = {}
